@@ -2,6 +2,7 @@ import Verif.Model.SvgNum
 import Verif.Proofs.SvgDoc
 import Verif.Proofs.SvgDocColor
 import Verif.Proofs.SvgDocDim
+import Verif.Proofs.Xml
 /-!
 # C05B — SVG minification keeps the element tree, the functional attributes and their values (document loop)
 
@@ -34,8 +35,10 @@ that has a default; comments, processing instructions, DOCTYPE and character dat
 Induction over the token list (`loop_aux`), for every `sub`, `path`, `num`. -/
 theorem svg_structure_partial (e : Env) (o : SvgOpts) (ts : List STok) (hshape : attrShape false ts = true)
     (hd : hasDefs1 ts = false) (hfo : hasForeignObject ts = false) :
-    skeletonEquiv o.inline ts (emit e o ts) = true :=
-  loop_aux e o (fun _ _ _ => true) (fun _ _ => True) (fun _ _ _ _ _ _ _ _ => rfl) ts.length ts (Nat.le_refl _) hd hfo
+    skeletonEquiv o.inline ts (emit e o ts) = true := by
+  unfold skeletonEquiv
+  rw [evsOut_emit]
+  exact loop_aux e o (fun _ _ _ => true) (fun _ _ => True) (fun _ _ _ _ _ _ _ _ => rfl) ts.length ts (Nat.le_refl _) hd hfo
     (fun _ _ _ _ => trivial) st0 [] false hshape (fun h => absurd h (by simp)) (by decide)
 
 /-- **svg_structure with values**: if the value relation holds for every attribute the loop writes (see
@@ -46,8 +49,10 @@ theorem svg_structure_values (e : Env) (o : SvgOpts) (ts : List STok) (hshape : 
     (hval : ∀ (st : St) (d n : List Char) (v : Option (List Char)) (p : PTok) (w : List Char),
       STok.attr d n v ∈ ts → (attrStep e.num o st n v).1 = [p] → fill e p = mkAttr n w →
         valRel n v (some w) = true) :
-    structEquiv o.inline ts (emit e o ts) = true :=
-  loop_aux e o valRel (fun n v => ∃ d, STok.attr d n v ∈ ts)
+    structEquiv o.inline ts (emit e o ts) = true := by
+  unfold structEquiv
+  rw [evsOut_emit]
+  exact loop_aux e o valRel (fun n v => ∃ d, STok.attr d n v ∈ ts)
     (fun st n v p w hP h1 h2 => by obtain ⟨d, hd⟩ := hP; exact hval st d n v p w hd h1 h2)
     ts.length ts (Nat.le_refl _) hd hfo (fun d _ _ h => ⟨d, h⟩) st0 [] false hshape
     (fun h => absurd h (by simp)) (by decide)
@@ -204,13 +209,25 @@ theorem dimension_text_ok (num : List Char → List Char) (n : List Char) (v : O
     (h : isNameAttr n = true) : attrVal1 num n v = prepVal v := by
   simp [attrVal1, h]
 
-/-- full statement: the dimension rewrite is never applied to a text-valued attribute (the specification's list) -/
-def dimension_text_full : Prop :=
-  ∀ (n : List Char) (v : List Char), isLiteralAttr n = true → attrVal1 idEnv.num n (some v) = prepVal (some v)
+/-- every attribute the specification regards as identifier / reference / text (`isLiteralAttr`) is exempt
+from the dimension rewrite (`version` by its own test) -/
+theorem literal_is_name (n : List Char) (h : isLiteralAttr n = true) :
+    n = ['v', 'e', 'r', 's', 'i', 'o', 'n'] ∨ isNameAttr n = true := by
+  simp only [isLiteralAttr, Bool.or_eq_true, beq_iff_eq] at h
+  repeat' (rcases h with h | h)
+  all_goals first | decide | (right; simp_all [isNameAttr])
 
-/-- `data-x="1.0"` becomes `data-x="1"` (K-C05B-6, narrowed by 434f247: `data-*`, `aria-*`, `lang` are still rewritten) -/
-theorem dimension_text_counterexample : ¬ dimension_text_full := fun h =>
-  absurd (h ['d', 'a', 't', 'a', '-', 'x'] ['"', '1', '.', '0', '"'] (by decide)) (by decide +kernel)
+/-- **dimension_text** (full since /repo 256408f; former finding K-C05B-6): the dimension rewrite is never applied to
+a text-valued attribute — `id class href font-family version`, prefixed names, `unicode glyph-name result in in2 name
+systemLanguage lang title`, `data-*`, `aria-*` -/
+theorem dimension_text_full (num : List Char → List Char) (n : List Char) (v : Option (List Char))
+    (h : isLiteralAttr n = true) : attrVal1 num n v = prepVal v := by
+  rcases literal_is_name n h with h | h
+  · subst h; simp [attrVal1]
+  · exact dimension_text_ok num n v h
+
+example : attrVal1 idEnv.num ['d', 'a', 't', 'a', '-', 'x'] (some ['"', '1', '.', '0', '"']) = ['1', '.', '0'] ∧
+    attrVal1 idEnv.num ['w', 'i', 'd', 't', 'h'] (some ['"', '1', '.', '0', '"']) = ['1'] := by decide +kernel
 
 /-- **color_attr_ok**: the colour branch (`css.ShortenColorHex`, `css.ShortenColorName`, `#aabbcc` → `#abc`) keeps
 the sRGB triple of every keyword / hex colour, and what is not a colour before is not a colour afterwards
@@ -227,29 +244,47 @@ of C05, `contentStyleType`: C18) are related by definition -/
 theorem attr_value_partial (n : List Char) (v w : Option (List Char)) (h : isOpaqueAttr n = true) :
     valRel n v w = true := by simp [valRel, h]
 
-/-- full statement of the value clause for one attribute token with a well-formed literal -/
+/-- full statement of the value clause for one attribute token with a well-formed literal (not proved: the XML
+layer — `buffer.go` + `EscapeAttrVal` against `aval` — is evaluated by the harness, `spec.c05b.holds`; no
+counterexample is known since /repo 256408f) -/
 def attr_value_full : Prop :=
   ∀ (e : Env) (o : SvgOpts) (st : St) (n raw : List Char) (p : PTok) (w : List Char),
     Verif.Spec.Xml.wfAttr raw = true → (attrStep e.num o st n (some raw)).1 = [p] → fill e p = mkAttr n w →
       valRel n (some raw) (some w) = true
 
-/-- … which is false: `data-*` / `aria-*` / `lang` values are rewritten as lengths (K-C05B-6) -/
-theorem attr_value_counterexample : ¬ attr_value_full := fun h =>
-  absurd (h idEnv ⟨false, false⟩ ⟨['g'], cssMime⟩ ['d', 'a', 't', 'a', '-', 'x'] ['"', '1', '.', '0', '"']
-    (.tok (mkAttr ['d', 'a', 't', 'a', '-', 'x'] ['"', '1', '"'])) ['"', '1', '"']
-    (by decide) (by decide +kernel) rfl) (by decide +kernel)
-
 /-! ## character data -/
 
-/-- full statement: the text branch keeps character data well-formed -/
-def text_chars_full : Prop :=
-  ∀ d : List Char, Verif.Spec.Xml.wfChars d = true →
-    Verif.Spec.Xml.wfChars (trimWs (Verif.Model.Xml.replWsEnt Verif.Gen.XmlTables.entities Verif.Gen.XmlTables.textRev d)) = true
+/-- **text_cdend_ok** (since /repo 2fde2e2; former finding K-C05B-11): whatever number `br` of `]` ends the output
+written so far, the character data written by the text branch and by the CDATA-as-text branch (`escapeCDEnd(·, bw.n)`)
+never completes the sequence `]]>` — neither inside the token nor together with the preceding output — and the
+number of `]` it leaves at the end is the one `bracketWriter` records.  No hypothesis on the data. -/
+theorem text_cdend_ok (br : Nat) (d : List Char) :
+    Verif.Spec.Xml.cdAuto br (escCD br d) = false ∧
+    Verif.Proofs.Xml.cdState br (escCD br d) = brAfter br d := Verif.Proofs.Xml.escCD_free d br
 
-/-- `]]&gt;` is decoded to `]]>`, which character data must not contain (K-C05B-11); references to `<` and `&` stay
-escaped since /repo 4398e57 (former K-C05B-2) -/
-theorem text_chars_counterexample : ¬ text_chars_full := fun h =>
-  absurd (h [']', ']', '&', 'g', 't', ';'] (by decide)) (by decide)
+/-- at the start of the output: the data contains no `]]>` at all -/
+theorem text_no_cdend (d : List Char) : Verif.Spec.Xml.hasCdEnd (escCD 0 d) = false := by
+  rw [← Verif.Proofs.Xml.cdAuto_hasCdEnd]; exact (text_cdend_ok 0 d).1
+
+/-- the guard does not change the characters: the decoded character data is the same (XML 1.0 grammar of
+character data as hypothesis, as in C06) -/
+theorem text_cdend_content (br : Nat) (d : List Char) (h : d = [] ∨ Verif.Spec.Xml.WfText d) :
+    Verif.Spec.Xml.decodeText (escCD br d) = Verif.Spec.Xml.decodeText d :=
+  (Verif.Proofs.Xml.escCD_text br d h).1
+
+/-- **bracket_count_ok**: the count handed to `escapeCDEnd` is exact — closing the holes of `a ++ b` handles `b`
+with the number of `]` at the end of the bytes written for `a`, results of `sub` and `path` included -/
+theorem bracket_count_ok (e : Env) (a b : List PTok) (br : Nat) :
+    fillGo e br (a ++ b) = fillGo e br a ++ fillGo e (brAfter br (bytesOf (fillGo e br a))) b :=
+  fillGo_append e a b br
+
+/-- tokens of `<svg>]<!--c-->]<![CDATA[>]]>&gt;</svg>` -/
+def exCdEnd : List STok :=
+  [.startTag ['s', 'v', 'g'], .startTagClose, .text [']'], .comment "<!--c-->".toList, .text [']'],
+   .cdata "<![CDATA[>]]>".toList ['>'], .text "&gt;".toList, .endTag "</svg>".toList ['s', 'v', 'g']]
+
+/-- `]]>` would arise across a removed comment, a CDATA section written as text and a decoded `&gt;` -/
+example : svgMinify idEnv ⟨false, false⟩ exCdEnd = "<svg>]]&gt;></svg>".toList := by decide +kernel
 
 example : trimWs (Verif.Model.Xml.replWsEnt Verif.Gen.XmlTables.entities Verif.Gen.XmlTables.textRev
     "a &#60; b &#38; c".toList) = "a &lt; b &amp; c".toList := by decide +kernel
